@@ -53,6 +53,12 @@ func checkC20(ctx *Ctx) {
 			c20Persistence(ctx, i)
 		}
 	}
+	if ctx.Shard == 3 || ctx.NShards == 1 {
+		// the database of a key is the one its command ran in, also when another actor re-points the caller
+		// (SWAPDB, SelectDB) between the command's handler and its log record
+		ctx.SetCurrent("C20 database-change lane")
+		c02DBChange(ctx)
+	}
 }
 
 func c20History(ctx *Ctx, i int, gens []cmdGen, u Universe) {
